@@ -883,7 +883,9 @@ class Interp:
         return v
 
     def ev_Lambda(self, node, st):
-        yield st, FuncVal(node, st.frame.module, st.frame.cls, closure=self.closure_of(st), name="<lambda>")
+        fv = FuncVal(node, st.frame.module, st.frame.cls, closure=self.closure_of(st), name="<lambda>")
+        fv.lexcls = self.lexical_class_name(st)
+        yield st, fv
 
     def closure_of(self, st):
         c = {}
@@ -1164,7 +1166,27 @@ class Interp:
             if isinstance(v, Exc):
                 yield st1, v
                 continue
-            yield from self.getattr(v, node.attr, st1)
+            yield from self.getattr(v, self.mangle(node.attr, st1), st1)
+
+    def lexical_class_name(self, st):
+        """name of the class whose body lexically encloses the code being executed (for private-name mangling)"""
+        fr = st.frame
+        if fr.cls is not None:
+            return fr.cls.name
+        f = fr.func
+        if f is not None:
+            if f.cls is not None:
+                return f.cls.name
+            return getattr(f, "lexcls", None)
+        return None
+
+    def mangle(self, attr, st):
+        """Python private-name mangling: inside a class body `x.__name` means `x._Class__name`"""
+        if attr.startswith("__") and not attr.endswith("__"):
+            cn = self.lexical_class_name(st)
+            if cn and cn.lstrip("_"):
+                return "_" + cn.lstrip("_") + attr
+        return attr
 
     def ev_Subscript(self, node, st):
         for st1, vs in self.ev_many([node.value, node.slice], st):
@@ -1619,6 +1641,12 @@ class Interp:
             return True
         if isinstance(v, self.models.HeapSeq):
             return v.length(self, st) != 0
+        import re as _re
+
+        if isinstance(v, (_re.Pattern, _re.Match)):
+            return True  # concrete re objects (see attrs.re_method) are always truthy
+        if isinstance(v, Opaque) and v.desc == "traceback":
+            return True  # the traceback object handed to __exit__ (loops.exec_with) is never falsy
         raise Unsupported("truth value of %r" % (v,))
 
     # iteration ----------------------------------------------------------------
@@ -1743,7 +1771,7 @@ class Interp:
                     yield st1, ("raise", vs.exc)
                     continue
                 obj, rhs = vs
-                for st2, cur in list(self.getattr(obj, tgt.attr, st1)):
+                for st2, cur in list(self.getattr(obj, self.mangle(tgt.attr, st1), st1)):
                     if isinstance(cur, Exc):
                         yield st2, ("raise", cur.exc)
                         continue
@@ -1751,7 +1779,7 @@ class Interp:
                         if isinstance(r, Exc):
                             yield st3, ("raise", r.exc)
                             continue
-                        for st4, r2 in self.models.setattr(self, st3, obj, tgt.attr, r):
+                        for st4, r2 in self.models.setattr(self, st3, obj, self.mangle(tgt.attr, st3), r):
                             yield st4, (("raise", r2.exc) if isinstance(r2, Exc) else None)
         elif isinstance(tgt, ast.Subscript):
             for st1, vs in self.ev_many([tgt.value, tgt.slice, node.value], st):
@@ -1817,7 +1845,7 @@ class Interp:
                 if isinstance(obj, Exc):
                     yield st1, obj
                     continue
-                yield from self.models.setattr(self, st1, obj, target.attr, v)
+                yield from self.models.setattr(self, st1, obj, self.mangle(target.attr, st1), v)
         elif isinstance(target, ast.Subscript):
             for st1, vs in self.ev_many([target.value, target.slice], st):
                 if isinstance(vs, Exc):
@@ -1851,7 +1879,7 @@ class Interp:
                     if isinstance(obj, Exc):
                         yield st2, ("raise", obj.exc)
                         continue
-                    for st3, r in self.models.delattr(self, st2, obj, t.attr):
+                    for st3, r in self.models.delattr(self, st2, obj, self.mangle(t.attr, st2)):
                         if isinstance(r, Exc):
                             yield st3, ("raise", r.exc)
                         else:
@@ -1966,7 +1994,9 @@ class Interp:
         yield from self.models.exec_with(self, st, node)
 
     def ex_FunctionDef(self, node, st):
-        st.frame.vars[node.name] = FuncVal(node, st.frame.module, None, closure=self.closure_of(st))
+        fv = FuncVal(node, st.frame.module, None, closure=self.closure_of(st))
+        fv.lexcls = self.lexical_class_name(st)
+        st.frame.vars[node.name] = fv
         yield st, None
 
     def ex_For(self, node, st):
